@@ -145,7 +145,8 @@ def star(rng, k=3, algo="ID", nw=False, roles=None, order=None, conn_order=None,
 
 # ---------------------------------------------------------------------------------------------- mesh
 def mesh(rng, m=2, n=2, algo="XY", nw=False, sides=(), cluster_role="ms", side_role="s", dir_end="dst",
-         partial=None, degree=5, cluster_shape="2d", undirected_sides=False, ep_order=None, name="mesh"):
+         partial=None, degree=5, cluster_shape="2d", undirected_sides=False, ep_order=None, name="mesh",
+         force_dir=False):
     """m x n auto-connected router array; a cluster endpoint (array) on the local ports (all or `partial`
     = list of (i,j)); one endpoint array per boundary side in `sides` (subset of W,E,S,N)."""
     d = header(name, nw, algo)
@@ -171,12 +172,13 @@ def mesh(rng, m=2, n=2, algo="XY", nw=False, sides=(), cluster_role="ms", side_r
     if partial is None:
         eps.append(mk_ep("cluster", cluster_role, nw, rng, alloc, array=[m, n]))
         conns.append(connect("cluster", {"range": [[0, m - 1], [0, n - 1]]}, {"range": [[0, m - 1], [0, n - 1]]},
-                             "Eject" if (algo == "XY" or rng.random() < 0.7) else None))
+                             "Eject" if (algo == "XY" or force_dir or rng.random() < 0.7) else None))
     else:
         for q, (i, j) in enumerate(partial):
             nm = f"core{q}"
             eps.append(mk_ep(nm, cluster_role if q else "ms", nw, rng, alloc))
-            conns.append(connect(nm, {}, {"idx": [i, j]}, "Eject" if (algo == "XY" or rng.random() < 0.7) else None))
+            conns.append(connect(nm, {}, {"idx": [i, j]},
+                                 "Eject" if (algo == "XY" or force_dir or rng.random() < 0.7) else None))
     for sd in sides:
         cnt = n if sd in "WE" else m
         nm = {"W": "west", "E": "east", "S": "south", "N": "north"}[sd]
@@ -347,3 +349,174 @@ def routing_suite(tier, seed, algos=("ID", "SRC", "XY"), want=None):
             out.append(mesh(rng, m, n, algo, rng.random() < 0.3, sides=sides, partial=part,
                             cluster_role=rng.choice(["ms", "m", "s"]), side_role=rng.choice(["s", "ms"])))
     return [(d, t) for d, t in out if d is not None]
+
+
+# ---------------------------------------------------------------------------------------------- address layouts (C01)
+def _addr_star(rng, algo, nw, aw, eps):
+    d = header("addr", nw, algo, aw)
+    d["endpoints"] = eps
+    d["routers"] = [{"name": "router"}]
+    d["connections"] = []
+    for e in eps:
+        c = {"src": e["name"], "dst": "router"}
+        if e.get("array") is not None:
+            a = e["array"]
+            dims = [a] if isinstance(a, int) else list(a)
+            c["src_range"] = [[0, x - 1] for x in dims]
+            c["allow_multi"] = True
+        d["connections"].append(c)
+    return d
+
+
+def _roles(nw, role):
+    if nw:
+        m, s = ["narrow_in", "wide_in"], ["narrow_out", "wide_out"]
+    else:
+        m, s = ["axi_in"], ["axi_out"]
+    out = {}
+    if "m" in role:
+        out["mgr_port_protocol"] = m
+    if "s" in role:
+        out["sbr_port_protocol"] = s
+    return out
+
+
+def address_suite(tier, seed):
+    """layouts the C01 quantifier names: ranges ending at 2^addr_width, touching, descending declaration
+    order, manager-only interleaved, multi-range; and overlapping descriptions that must be rejected."""
+    rng = random.Random(seed + 17)
+    out = []
+    for algo in ("ID", "SRC"):
+        for nw in (False, True):
+            for aw in ((32, 48) if tier == "quick" else (16, 32, 40, 48, 64)):
+                top = 2 ** aw
+                size = 0x1000 if aw > 16 else 0x100
+                # last element of an array / a single range ends exactly at 2^aw
+                eps = [dict(name="cpu", **_roles(nw, "ms"), addr_range={"start": 0, "end": size}),
+                       dict(name="io", **_roles(nw, "m")),
+                       dict(name="dram", array=[2], **_roles(nw, "s"), addr_range={"base": top - 2 * size, "size": size}),
+                       ]
+                out.append((_addr_star(rng, algo, nw, aw, eps), {"topo": "star", "layout": "array-ends-at-top", "aw": aw}))
+                eps = [dict(name="hi", **_roles(nw, "ms"), addr_range={"start": top - size, "end": top}),
+                       dict(name="mid", **_roles(nw, "m")),
+                       dict(name="lo", **_roles(nw, "s"), addr_range=[{"start": 4 * size, "size": size, "desc": "b"},
+                                                                       {"start": 0, "end": size, "desc": "a"}])]
+                out.append((_addr_star(rng, algo, nw, aw, eps), {"topo": "star", "layout": "range-ends-at-top-descending", "aw": aw}))
+            # touching ranges, descending declaration order, 2-D arrays
+            size = 0x10000
+            eps = [dict(name="c", array=[2, 2], **_roles(nw, "ms"), addr_range={"base": 8 * size, "size": size}),
+                   dict(name="m0", **_roles(nw, "m")),
+                   dict(name="b", **_roles(nw, "s"), addr_range={"start": 4 * size, "end": 8 * size}),
+                   dict(name="a", array=[4], **_roles(nw, "s"), addr_range=[{"base": 0, "size": size // 2},
+                                                                           {"base": 2 * size, "size": size // 2}])]
+            out.append((_addr_star(rng, algo, nw, 48, eps), {"topo": "star", "layout": "touching-descending-multi"}))
+    # overlapping descriptions: every pair (window, nested / partial / identical / one byte), both declaration orders
+    size = 0x1000
+    shapes = {
+        "nested": ({"start": 0, "end": 16 * size}, {"start": 4 * size, "end": 5 * size}),
+        "partial": ({"start": 0, "end": 4 * size}, {"start": 3 * size, "end": 6 * size}),
+        "identical": ({"start": size, "end": 2 * size}, {"start": size, "end": 2 * size}),
+        "one-byte": ({"start": 0, "end": size + 1}, {"start": size, "end": 2 * size}),
+        "same-start": ({"start": 0, "end": 4 * size}, {"start": 0, "end": size}),
+        "same-end": ({"start": 0, "end": 4 * size}, {"start": 3 * size, "end": 4 * size}),
+        "array-into-single": ({"start": 3 * size, "end": 4 * size}, None),
+    }
+    for algo in ("ID", "SRC", "XY"):
+        for kind, (r1, r2) in shapes.items():
+            for order in (0, 1):
+                for where in ("two-endpoints", "same-endpoint"):
+                    nw = rng.random() < 0.3
+                    if r2 is None:
+                        if where == "same-endpoint":
+                            continue
+                        e1 = dict(name="win", **_roles(nw, "s"), addr_range=r1)
+                        e2 = dict(name="arr", array=[4], **_roles(nw, "ms"), addr_range={"base": 0, "size": size})
+                        eps = [e1, e2] if order == 0 else [e2, e1]
+                    elif where == "two-endpoints":
+                        e1 = dict(name="win", **_roles(nw, "s"), addr_range=r1)
+                        e2 = dict(name="inner", **_roles(nw, "ms"), addr_range=r2)
+                        eps = [e1, e2] if order == 0 else [e2, e1]
+                    else:
+                        rr = [r1, r2] if order == 0 else [r2, r1]
+                        eps = [dict(name="both", **_roles(nw, "s"), addr_range=rr), dict(name="cpu", **_roles(nw, "m"))]
+                    eps.append(dict(name="far", **_roles(nw, "ms"), addr_range={"start": 64 * size, "size": size}))
+                    if algo == "XY":
+                        d, _ = mesh(rng, 2, 2, "XY", nw, partial=[(0, 0), (1, 1), (0, 1)][:len(eps)])
+                        if d is None:
+                            continue
+                        for tgt, srcp in zip(d["endpoints"], eps):
+                            for k in ("addr_range", "mgr_port_protocol", "sbr_port_protocol"):
+                                tgt.pop(k, None)
+                            tgt.update({k: v for k, v in srcp.items() if k not in ("name", "array")})
+                        if any("array" in e for e in eps):
+                            continue
+                    else:
+                        d = _addr_star(rng, algo, nw, 48, eps)
+                    out.append((d, {"topo": "overlap", "layout": kind, "order": order, "where": where,
+                                    "expect": "reject", "defect": "overlap-" + kind}))
+    return out
+
+
+# ---------------------------------------------------------------------------------------------- port conflicts (C05/C10)
+def conflict_suite(tier, seed):
+    """descriptions with two links on one router port: must be rejected; if a change makes floogen accept
+    them the wiring checker still looks at what was emitted"""
+    rng = random.Random(seed + 23)
+    out = []
+    for algo in ("XY", "ID", "SRC"):
+        for nw in (False, True):
+            # endpoint on the West port of router [1,0], which already carries the mesh link to [0,0]
+            d, _ = mesh(rng, 2, 2, algo, nw)
+            d["endpoints"].append(mk_ep("dup", "ms", nw, rng, Alloc(rng, start=0x4000_0000)))
+            d["connections"].append({"src": "dup", "dst": "router", "dst_idx": [1, 0], "dst_dir": "West"})
+            out.append((d, {"topo": "conflict", "defect": "port-taken-by-mesh-link", "expect": "reject"}))
+            # second endpoint on an occupied Eject port
+            d, _ = mesh(rng, 2, 2, algo, nw, force_dir=True)
+            d["endpoints"].append(mk_ep("dup", "ms", nw, rng, Alloc(rng, start=0x4000_0000)))
+            d["connections"].append({"src": "dup", "dst": "router", "dst_idx": [0, 1], "dst_dir": "Eject"})
+            out.append((d, {"topo": "conflict", "defect": "port-taken-by-endpoint", "expect": "reject"}))
+            # direction given on the router side (src_dir)
+            d, _ = mesh(rng, 2, 2, algo, nw, dir_end="src", force_dir=True)
+            d["endpoints"].append(mk_ep("dup", "ms", nw, rng, Alloc(rng, start=0x4000_0000)))
+            d["connections"].append({"src": "router", "dst": "dup", "src_idx": [1, 1], "src_dir": "Eject"})
+            out.append((d, {"topo": "conflict", "defect": "port-taken-src-dir", "expect": "reject"}))
+    return out
+
+
+# ---------------------------------------------------------------------------------------------- detours (C14, C02, C03, C09)
+def detour_suite(tier, seed):
+    """graphs in which a non-shortest route is possible: a wide hub in parallel with a chain of small
+    routers, and meshes with wrap-around (torus) links"""
+    rng = random.Random(seed + 29)
+    out = []
+    for algo in ("ID", "SRC"):
+        for nw in (False, True):
+            for chain in ((2, 3) if tier == "quick" else (2, 3, 4)):
+                for hub_extra in (2, 3, 5):
+                    d = header("bypass", nw, algo)
+                    alloc = Alloc(rng)
+                    eps = [mk_ep("cpu", "ms", nw, rng, alloc), mk_ep("dram", "ms", nw, rng, alloc)]
+                    rts = [{"name": "rta"}, {"name": "rtd"}, {"name": "xbar"}] + [{"name": f"rep{i}"} for i in range(chain)]
+                    conns = [{"src": "cpu", "dst": "rta"}, {"src": "dram", "dst": "rtd"},
+                             {"src": "rta", "dst": "xbar"}, {"src": "xbar", "dst": "rtd"},
+                             {"src": "rta", "dst": "rep0"}, {"src": f"rep{chain - 1}", "dst": "rtd"}]
+                    for i in range(chain - 1):
+                        conns.append({"src": f"rep{i}", "dst": f"rep{i + 1}"})
+                    for q in range(hub_extra):
+                        eps.append(mk_ep(f"io{q}", rng.choice(["s", "ms", "m"]), nw, rng, alloc))
+                        conns.append({"src": f"io{q}", "dst": "xbar"})
+                    d["endpoints"], d["routers"], d["connections"] = eps, rts, conns
+                    out.append((d, {"topo": "bypass", "chain": chain, "hub_ports": hub_extra + 2}))
+            for (m, n) in (((3, 1), (4, 2), (3, 3)) if tier == "quick" else ((3, 1), (4, 1), (4, 2), (5, 2), (3, 3), (4, 4))):
+                d, _ = mesh(rng, m, n, algo, nw, name="torus")
+                for y in range(n):
+                    d["connections"].append({"src": "router", "dst": "router", "src_idx": [0, y], "dst_idx": [m - 1, y],
+                                             "src_dir": "West", "dst_dir": "East"})
+                out.append((d, {"topo": "torus", "m": m, "n": n}))
+                if n >= 3:
+                    d, _ = mesh(rng, m, n, algo, nw, name="torus")
+                    for x in range(m):
+                        d["connections"].append({"src": "router", "dst": "router", "src_idx": [x, 0], "dst_idx": [x, n - 1],
+                                                 "src_dir": "South", "dst_dir": "North"})
+                    out.append((d, {"topo": "torus-y", "m": m, "n": n}))
+    return out
